@@ -110,13 +110,18 @@ impl LoadBalancer {
   pub async fn wait_for_connection(&self) -> Result<(), ZmqError> {
     let notify = self.notify_waiters.clone();
     loop {
+      // Subscribe BEFORE looking at the peer list: `notify_waiters()` stores no permit, so a
+      // peer added between the check and a later subscription would never wake this sender.
+      let notified = notify.notified();
+      tokio::pin!(notified);
+      notified.as_mut().enable();
       if self.deactivated.load(std::sync::atomic::Ordering::Acquire) {
         return Err(ZmqError::InvalidState("Socket closed".into()));
       }
       if !self.state.lock().peers.is_empty() {
         return Ok(());
       }
-      notify.notified().await;
+      notified.await;
     }
   }
 
